@@ -70,6 +70,11 @@ static void do_rw(char *chunks, int b, int e, char *old, int pos, char *chunks2)
 	}
 	if (e < 0)
 		e = lb->ln_n;
+	if (b < 0 || b > e || e > lb->ln_n) {
+		printf("error range n=%d\n", lb->ln_n);
+		lbuf_free(lb);
+		return;
+	}
 	unlink(tmpl);
 	if (strcmp(old, "absent")) {
 		int n;
